@@ -549,12 +549,15 @@ class TCPTransport(Transport):
         :type node: Node
         """
 
-        conn = self._connections.pop(node, None)
+        conn = self._connections.get(node)
         if conn is not None:
             # Calling conn.disconnect() immediately triggers the onDisconnected callback if the connection isn't already disconnected, so this is necessary to prevent the automatic reconnect.
+            # (The callback finds the node by its connection: the connection is taken out of the
+            # table afterwards, otherwise the node is never reported as disconnected.)
             self._preventConnectNodes.add(node)
             conn.disconnect()
             self._preventConnectNodes.remove(node)
+            self._connections.pop(node, None)
         if isinstance(node, TCPNode):
             self._nodes.discard(node)
             self._nodeAddrToNode.pop(node.address, None)
